@@ -438,7 +438,10 @@ func extToken(f *frame, cm *ssa.CallCommon, args []Val, st *State, name string, 
 		bh := st.Heap(g.TE.CellHeap(sl.Elem()))
 		c.assume(st, fmt.Sprintf("(=> (and %s (= (itag %s) %d)) (= (%s (islice %s) %s) (%s %s)))", ok, tok.T, g.TE.Tag(cdT), strOfBytesUF(g, sl.Elem()), tok.T, bh, xmlCharsUF(g), p))
 	}
-	nr := c.define("xmlrem", SInt, fmt.Sprintf("(ite %s (- %s 1) %s)", ok, rem, rem))
+	// errors of a Decoder are sticky (encoding/xml keeps the first error in d.err and rawToken returns it on every later call):
+	// a failing call leaves nothing to deliver, so no later call on the sequence succeeds
+	nr := c.define("xmlrem", SInt, fmt.Sprintf("(ite %s (- %s 1) 0)", ok, rem))
+	c.assumed["(*xml.Decoder).Token: once a call has failed (io.EOF included) every later call fails (encoding/xml keeps its first error)"] = true
 	st.heaps[h] = nr
 	st.heaps[ph] = c.define("xmlpos", SInt, fmt.Sprintf("(ite %s (+ %s 1) %s)", ok, p, p))
 	c.assumed["(*xml.Decoder).Token: total; on success returns one of the six token kinds and consumes one of finitely many remaining tokens (ghost counter); on error the token is nil"] = true
